@@ -276,6 +276,16 @@ Result execute(const Plan &p) {
             auto T = be::transpose(A);
             std::map<std::pair<long,long>, B> want; for (long i = 0; i < nb; ++i) for (ptrdiff_t j = A.ptr[i]; j < A.ptr[i+1]; ++j) want[std::make_pair((long)A.col[j], i)] = amgcl::math::adjoint(A.val[j]);
             for (size_t i = 0; i < T->nrows; ++i) for (ptrdiff_t j = T->ptr[i]; j < T->ptr[i+1]; ++j) { auto wv = want.find(std::make_pair((long)i, (long)T->col[j])); bool ok = wv != want.end(); if (ok) for (int a = 0; a < 2; ++a) for (int c2 = 0; c2 < 2; ++c2) if (T->val[j](a, c2) != wv->second(a, c2)) ok = false; if (!ok) { res.fail(sig("dense-definition", "block-adjoint-transpose", fmt("block (%zu,%ld)", i, (long)T->col[j]))); i = T->nrows; break; } }
+            // blocks with complex entries: the transposed block is the conjugate transpose of the source block
+            { typedef std::complex<double> Cx; typedef amgcl::static_matrix<Cx,2,2> CB;
+              be::crs<CB> Ac; Ac.set_size(nb, nb, false); for (long i = 0; i <= nb; ++i) Ac.ptr[i] = A.ptr[i]; Ac.set_nonzeros(A.ptr[nb]);
+              for (ptrdiff_t j = 0; j < A.ptr[nb]; ++j) { Ac.col[j] = A.col[j]; for (int a = 0; a < 2; ++a) for (int c2 = 0; c2 < 2; ++c2) Ac.val[j](a, c2) = Cx(A.val[j](a, c2), (double)r.range(-2, 2)); }
+              auto Tc = be::transpose(Ac);
+              std::map<std::pair<long,long>, CB> wc; for (long i = 0; i < nb; ++i) for (ptrdiff_t j = Ac.ptr[i]; j < Ac.ptr[i+1]; ++j) { CB h; for (int a = 0; a < 2; ++a) for (int c2 = 0; c2 < 2; ++c2) h(a, c2) = std::conj(Ac.val[j](c2, a)); wc[std::make_pair((long)Ac.col[j], i)] = h; }
+              size_t cnt = 0; bool bad = false;
+              for (size_t i = 0; i < Tc->nrows && !bad; ++i) for (ptrdiff_t j = Tc->ptr[i]; j < Tc->ptr[i+1]; ++j, ++cnt) { auto wv = wc.find(std::make_pair((long)i, (long)Tc->col[j])); bool ok = wv != wc.end(); if (ok) for (int a = 0; a < 2; ++a) for (int c2 = 0; c2 < 2; ++c2) if (Tc->val[j](a, c2) != wv->second(a, c2)) ok = false;
+                  if (!ok) { bad = true; res.fail(sig("dense-definition", "complex-block-conjugate-transpose", fmt("block (%zu,%ld) is not the conjugate transpose of the source block", i, (long)Tc->col[j]))); break; } }
+              if (!bad && cnt != wc.size()) res.fail(sig("dense-definition", "complex-block-conjugate-transpose", "block count differs")); }
             // product against the unblocked dense product
             auto P2 = be::product(A, A, true);
             Eigen::MatrixXd D = Eigen::MatrixXd::Zero(2 * nb, 2 * nb), Di = D;
